@@ -80,9 +80,7 @@ def unhexBytes (s : String) : ByteArray := Id.run do
 
 /-- driver command `li <hex> <maxcol>`: every boundary offset -> position, and every
 (line, col) with line ≤ numLines, col ≤ maxcol -> offset -/
-def cmd (rest : String) : String :=
-  match rest.splitOn " " with
-  | [hx, mc] =>
+def cmdWith (hx mc : String) (big : Bool) : String :=
     match String.fromUTF8? (unhexBytes hx) with
     | none => "bad-utf8"
     | some str =>
@@ -95,7 +93,16 @@ def cmd (rest : String) : String :=
       let nl := numLines t
       let bw := (List.range (nl + 1)).flatMap fun l =>
         (List.range (maxcol + 1)).map fun c => s!"{l},{c}={fromPos t l c 0}"
-      s!"T {";".intercalate fw} F {";".intercalate bw}"
+      -- "big": columns and lines at the ends of the u32 range
+      let bigC := [2147483647, 2147483648, 4294967290, 4294967291, 4294967292, 4294967293, 4294967294, 4294967295]
+      let bigL := (List.range (nl + 2)) ++ [4294967295]
+      let bwBig := if big then bigL.flatMap fun l => bigC.map fun c => s!"{l},{c}={fromPos t l c 0}" else []
+      s!"T {";".intercalate fw} F {";".intercalate (bw ++ bwBig)}"
+
+def cmd (rest : String) : String :=
+  match rest.splitOn " " with
+  | [hx, mc] => cmdWith hx mc false
+  | [hx, mc, "big"] => cmdWith hx mc true
   | _ => "bad-args"
 
 end LineIndex
